@@ -14,7 +14,7 @@ from pyiron_snippets.colors import SeabornColors
 from pyiron_snippets.dotdict import DotDict
 
 from pyiron_workflow.create import HasCreator
-from pyiron_workflow.mixin.lexical import LexicalParent
+from pyiron_workflow.mixin.lexical import LexicalParent, _ensure_path_is_not_cyclic
 from pyiron_workflow.node import Node
 from pyiron_workflow.topology import set_run_connections_according_to_dag
 
@@ -454,6 +454,16 @@ class Composite(LexicalParent[Node], HasCreator, Node, ABC):
             raise TypeError(
                 f"Expected replacement node to be a node instance or node subclass, but "
                 f"got {replacement}"
+            )
+
+        # Refuse up front what `add_child` would otherwise only refuse once the owned
+        # node is gone and the labels are swapped: a replacement that is this composite
+        # or one of its ancestors, or one that can never be anybody's child
+        _ensure_path_is_not_cyclic(self, replacement_node)
+        if not isinstance(self, replacement_node.parent_type()):
+            raise TypeError(
+                f"Replacement node {replacement_node.label} is a "
+                f"{replacement_node.__class__} and cannot be owned by {self.label}"
             )
 
         replacement_node.copy_io(
